@@ -429,6 +429,18 @@ func main() {
 		os.Exit(2)
 	}
 	g.known = vh.KnownKeys(fs, "C12")
+	if !*nomodel {
+		// private copy of the driver: other checks may relink lean/.lake/build/bin/driver while this one runs
+		if b, err := os.ReadFile(*driver); err == nil {
+			if f, err := os.CreateTemp("", "c12-driver-*"); err == nil {
+				f.Write(b)
+				f.Close()
+				os.Chmod(f.Name(), 0o755)
+				*driver = f.Name()
+				defer os.Remove(f.Name())
+			}
+		}
+	}
 
 	replayLines := func(path string) {
 		b, err := os.ReadFile(path)
@@ -497,6 +509,9 @@ func main() {
 			if strings.HasPrefix(k, "known:") {
 				nk += rep.Hist[k]
 			}
+		}
+		if strings.Contains(*driver, "c12-driver-") {
+			os.Remove(*driver)
 		}
 		fmt.Printf("c12%s: %d evaluations, %d compared with the model, %d failures, %d known-finding hits\n", tag, rep.Evaluations, rep.Compared, rep.Failures(), nk)
 		if rep.Failures() > 0 {
